@@ -1292,6 +1292,20 @@ func (s *State) startPanic(th *Thread, v Value) {
 func (s *State) unwind(th *Thread) {
 	for {
 		if len(th.frames) == 0 {
+			if th != s.threads[0] && s.isCrashSignal(th.panicVal) {
+				// process death (harness crash signal) raised inside a spawned thread:
+				// every spawned thread stops at once, the harness thread's vJoin re-raises it
+				s.crashPending = th.panicVal
+				for _, t := range s.threads[1:] {
+					t.done = true
+					t.frames = nil
+					t.locks = nil
+					t.panicking = false
+					delete(s.waits(), t.id)
+				}
+				s.reschedule()
+				return
+			}
 			// uncaught panic in this thread
 			s.report("panic", "uncaught panic: "+s.panicString(th.panicVal), s.currentModel(), "sat")
 			s.dead = true
@@ -1335,6 +1349,15 @@ func (s *State) unwind(th *Thread) {
 		}
 		// A panicking deferred call (retDiscard/retUnwind) propagates into the frame that was running defers.
 	}
+}
+
+func (s *State) isCrashSignal(v Value) bool {
+	iv, ok := v.(IfaceV)
+	if !ok || iv.T == nil {
+		return false
+	}
+	n, ok := iv.T.(*types.Named)
+	return ok && n.Obj().Name() == "vCrashSignal"
 }
 
 func (s *State) panicString(v Value) string {
